@@ -315,7 +315,7 @@ std::string harness_run()
 {
   sim::pthread_model_reset();
   sim::clock_reset();
-  wc::WorldCfg cfg = wc::draw_cfg(4, 2);
+  wc::WorldCfg cfg = sim::thorough() ? wc::draw_cfg(5, 3) : wc::draw_cfg(4, 2);
   static const uint64_t costs[4] = {200000, 500000, 1000000, 3000000};
   sim::clock_set_read_cost(costs[sim::cfg_int("clock_cost", 0, 3)]);
   CNT = Counters();
